@@ -47,6 +47,40 @@ def hetero_stacks(rnd, tier):
     return progs
 
 
+def zipped_selections(rnd, tier):
+    """C02: equal-length index lists on every pair / triple of dimensions
+    (adjacent or not, leading axis or not), with repeats and negative indices,
+    alone or with an integer / slice on another dimension, in both keyword
+    orders."""
+    import itertools
+    dims = {'T1': {'t': 2, 'y': 2, 'x': 3}, 'T3': {'y': 3, 't': 2, 'x': 2},
+            'T4': {'t': 2, 'z': 1, 'y': 2, 'x': 2},
+            'T7': {'t': 2, 'z': 3, 'y': 2, 'x': 3}}
+    progs = []
+    for t in sorted(dims):
+        names = list(dims[t])
+        combos = list(itertools.combinations(names, 2)) + \
+            list(itertools.combinations(names, 3))
+        for ds in combos:
+            for m in (1, 2, 4):
+                for order in (ds, ds[::-1]):
+                    sels = [{'d': d, 's': {'k': 'list', 'v': [
+                        rnd.randint(-dims[t][d], dims[t][d] - 1)
+                        for _ in range(m)]}} for d in order]
+                    rest = [d for d in names if d not in ds]
+                    if rest and rnd.random() < 0.6:
+                        d = rnd.choice(rest)
+                        sels.insert(rnd.randint(0, len(sels)), {
+                            'd': d, 's': cd.rsel(rnd, dims[t][d],
+                                                 ('int', 'slice'))})
+                    progs.append({'templates': [t], 'steps': [{
+                        'act': 'slice', 'src': 1, 'others': [],
+                        'args': {'sels': sels, 'newdim': 'POINTS'}}]})
+    if tier == 'quick':
+        progs = rnd.sample(progs, min(len(progs), 200))
+    return progs
+
+
 def multidim_applies(rnd, tier):
     """C03: every pair / triple of dimensions of every template reduced in ONE
     call - with one reducer name for all of them, and with min/max
@@ -55,11 +89,11 @@ def multidim_applies(rnd, tier):
     import itertools
     dims = {'T1': ['t', 'y', 'x'], 'T2': ['t', 'z', 'x'],
             'T3': ['y', 't', 'x'], 'T4': ['t', 'z', 'y', 'x'],
-            'T5': ['time', 'lev']}
+            'T5': ['time', 'lev'], 'T7': ['t', 'z', 'y', 'x']}
     # thresholds inside the templates' value ranges (about half the cells)
     THRESH = {'T1': [103, 105, 108, 202], 'T2': [112, 113, 132, 152],
               'T3': [304, 306, 309, 332], 'T4': [401, 402, 405],
-              'T5': [503, 506, 508]}
+              'T5': [503, 506, 508], 'T7': [705, 712, 718, 726, 763]}
     progs = []
     for t in sorted(dims):
         combos = list(itertools.combinations(dims[t], 2)) + \
@@ -105,6 +139,8 @@ def run(prop, tier, extra=None):
         progs += hetero_stacks(rnd, tier)
     if prop == 'C03':
         progs += multidim_applies(rnd, tier)
+    if prop == 'C02':
+        progs += zipped_selections(rnd, tier)
     # spec -> code: every program the bounded model emits is replayed
     mcp = cd.mc_programs(out, prop, tier)
     out.cov['programs_emitted_by_tlc'] = len(mcp)
